@@ -577,6 +577,71 @@ theorem sizeWord_bytesV21 {c : CryptoOps} {pointOk : Bytes → Bool} {ca : Bool}
   rw [hb]
   exact headerV21Parse_ok _ _ _ wf.major wf.minor hsz _
 
+
+/-! ### ISK certificate lite / certificate block Vx -/
+
+structure WFlite (pointOk : Bytes → Bool) (i : IskLite) : Prop where
+  constraints : i.constraints < 2 ^ 32
+  pub : i.pubKey.length = 64
+  point : pointOk i.pubKey = true
+  sig : i.signature.length = 64
+
+/-- the exported certificate: 8 header bytes, the key, the signature -/
+def liteBytes (i : IskLite) : Bytes := leEnc 2 0x4D43 ++ leEnc 2 1 ++ leEnc 4 i.constraints ++ i.pubKey ++ i.signature
+
+theorem liteTbs_ok (pointOk : Bytes → Bool) (i : IskLite) (wf : WFlite pointOk i) :
+    liteTbs i = .ok (leEnc 2 0x4D43 ++ leEnc 2 1 ++ leEnc 4 i.constraints ++ i.pubKey) := by
+  have p32 : (2 : Nat) ^ 32 = 256 ^ 4 := by decide
+  have e1 : GL.liteMagic = 0x4D43 := rfl
+  have e2 : GL.liteVersion = 1 := rfl
+  have e3 : GL.litePubKeyLength = 64 := rfl
+  have e4 : GL.liteSignatureOffset = 72 := rfl
+  simp only [liteTbs, e1, e2, e3, e4, packLE_ok 2 0x4D43 (by decide), packLE_ok 2 1 (by decide),
+    packLE_ok 4 i.constraints (by rw [← p32]; exact wf.constraints), bind_ok, wf.pub, List.length_append, leEnc_len,
+    ne_eq, not_true_eq_false, ↓reduceIte, pure_eq_ok]
+
+theorem liteExport_ok (pointOk : Bytes → Bool) (i : IskLite) (wf : WFlite pointOk i) : liteExport i = .ok (liteBytes i) := by
+  have hne : i.signature.isEmpty = false := by
+    cases h : i.signature with
+    | nil => have := wf.sig; rw [h] at this; simp at this
+    | cons _ _ => rfl
+  have e3 : GL.litePubKeyLength = 64 := rfl
+  have e5 : GL.liteSignatureSize = 64 := rfl
+  simp only [liteExport, hne, Bool.false_eq_true, ↓reduceIte, liteTbs_ok pointOk i wf, bind_ok, e3, e5, List.length_append, leEnc_len,
+    wf.pub, wf.sig, ne_eq, not_true_eq_false, pure_eq_ok, liteBytes]
+
+/-- parse ∘ export = id for the lite ISK certificate (trailing bytes ignored) -/
+theorem liteParse_export (pointOk : Bytes → Bool) (i : IskLite) (wf : WFlite pointOk i) (tail : Bytes) :
+    liteParse pointOk (liteBytes i ++ tail) = .ok i := by
+  have p32 : (2 : Nat) ^ 32 = 256 ^ 4 := by decide
+  have e3 : GL.litePubKeyLength = 64 := rfl
+  have e5 : GL.liteSignatureSize = 64 := rfl
+  have hb : liteBytes i ++ tail = leEnc 2 0x4D43 ++ (leEnc 2 1 ++ (leEnc 4 i.constraints ++ (i.pubKey ++ (i.signature ++ tail)))) := by
+    simp only [liteBytes, List.append_assoc]
+  have hd8 : (liteBytes i ++ tail).drop 8 = i.pubKey ++ (i.signature ++ tail) := by
+    have : liteBytes i ++ tail = (leEnc 2 0x4D43 ++ leEnc 2 1 ++ leEnc 4 i.constraints) ++ (i.pubKey ++ (i.signature ++ tail)) := by
+      simp only [liteBytes, List.append_assoc]
+    rw [this]; exact List.drop_left' (by simp only [List.length_append, leEnc_len])
+  have hd72 : (liteBytes i ++ tail).drop (8 + 64) = i.signature ++ tail := by
+    rw [← List.drop_drop, hd8]; exact List.drop_left' wf.pub
+  simp only [liteParse, e3, e5, hd8, hd72, List.take_left' wf.pub, List.take_left' wf.sig, wf.point, Bool.not_true,
+    Bool.false_eq_true, ↓reduceIte]
+  rw [hb]
+  simp only [unpackLE_append 2 0x4D43 _ (by decide), unpackLE_append 2 1 _ (by decide),
+    unpackLE_append 4 i.constraints _ (by rw [← p32]; exact wf.constraints), bind_ok, pure_eq_ok]
+
+/-- `CertBlockVx.parse (export)` gives the certificate back when the constraints word is 0 (NXP signed) or 1 (self signed) -/
+theorem vxParse_export (pointOk : Bytes → Bool) (i : IskLite) (wf : WFlite pointOk i) (h01 : i.constraints = 0 ∨ i.constraints = 1)
+    (tail : Bytes) : vxParse pointOk (liteBytes i ++ tail) = .ok i := by
+  simp only [vxParse, liteParse_export pointOk i wf tail, bind_ok, pure_eq_ok]
+  rcases h01 with h | h <;> cases i <;> simp_all
+
+/-- the four fuse words, byte-reversed back and concatenated, are the 16-byte certificate hash -/
+theorem vxFuseWords_hash (h : Bytes) (hl : h.length = 16) : ((vxFuseWords h).map List.reverse).flatten = h := by
+  simp only [vxFuseWords, List.map_cons, List.map_nil, List.reverse_reverse, List.flatten_cons, List.flatten_nil, List.append_nil]
+  match h, hl with
+  | [a0, a1, a2, a3, a4, a5, a6, a7, a8, a9, a10, a11, a12, a13, a14, a15], _ => rfl
+
 /-! ### what the ISK signature covers -/
 
 theorem iskDataToSign_ok (pointOk : Bytes → Bool) (n : Nat) (i : IskCert) (wf : WFisk pointOk n i) (krd : Bytes) :
